@@ -95,13 +95,19 @@ Theorem prefix_is_prefix : forall s n out, bibtex_prefix s n = Ok out ->
 Proof. exact prefix_is_prefix_lemma. Qed.
 Print Assumptions prefix_is_prefix.
 
-(* it is a prefix of the string followed by exactly as many closing braces as that prefix
-   leaves open.  FULL STATEMENT (all strings, k = cdepth_from 0 p) is refuted below; proved
-   for balanced strings *)
-Theorem prefix_shape_partial : forall s n out, balanced s -> bibtex_prefix s n = Ok out ->
+(* it is a prefix of the string followed by EXACTLY as many closing braces as that prefix leaves
+   open.  FULL STATEMENT (all strings) is refuted below (finding C12-P1); proved for every string
+   that does not end inside a never-closed special character (stray braces allowed) ... *)
+Theorem prefix_shape_partial : forall s n out, ends_in_special s = false -> bibtex_prefix s n = Ok out ->
+  exists p k, out = p ++ repeat c_rbrace k /\ is_prefix p s /\ k = cdepth_from 0 p.
+Proof. exact prefix_shape_exact_lemma. Qed.
+Print Assumptions prefix_shape_partial.
+
+(* ... in particular for balanced strings (depth as the running count of the Spec) *)
+Theorem prefix_shape_balanced : forall s n out, balanced s -> bibtex_prefix s n = Ok out ->
   exists p k, out = p ++ repeat c_rbrace k /\ is_prefix p s /\ depth_from 0 p = Some k.
 Proof. exact prefix_shape_lemma. Qed.
-Print Assumptions prefix_shape_partial.
+Print Assumptions prefix_shape_balanced.
 
 (* hence the prefix of a balanced string is balanced: it closes the braces it opened *)
 Theorem prefix_closes_partial : forall s n out, balanced s -> bibtex_prefix s n = Ok out -> balanced out.
@@ -157,13 +163,17 @@ Proof. exact purify_idem_lemma. Qed.
 Print Assumptions purify_idem.
 
 (* ---- case change (mode 0 = 'l', 1 = 'u', other = 't') ---- *)
-(* `balanced` is needed: for an unclosed special character the scanner emits a closing
-   brace that is not in the input (change_case_unbalanced_example below) *)
+(* The laws hold for every string that does not end inside a never-closed special character
+   (for those the scanner emits a closing brace that is not in the input, see
+   change_case_unbalanced_example and change_case_upto_case_all); balanced strings are such. *)
+Theorem balanced_not_in_special : forall s, balanced s -> ends_in_special s = false.
+Proof. exact balanced_not_in_special_lemma. Qed.
+Print Assumptions balanced_not_in_special.
 
 (* letters are preserved up to case, everything else exactly *)
-Theorem change_case_upto_case : forall s mode out, balanced s -> change_case s mode = Ok out ->
+Theorem change_case_upto_case : forall s mode out, ends_in_special s = false -> change_case s mode = Ok out ->
   lower out = lower s.
-Proof. exact change_case_upto_case_lemma. Qed.
+Proof. exact change_case_upto_case_gen. Qed.
 Print Assumptions change_case_upto_case.
 
 (* ... and on any input, up to that one closing brace *)
@@ -172,14 +182,14 @@ Theorem change_case_upto_case_all : forall s mode out, change_case s mode = Ok o
 Proof. exact change_case_upto_case_all_lemma. Qed.
 Print Assumptions change_case_upto_case_all.
 
-Theorem change_case_length : forall s mode out, balanced s -> change_case s mode = Ok out ->
+Theorem change_case_length : forall s mode out, ends_in_special s = false -> change_case s mode = Ok out ->
   length out = length s.
-Proof. exact change_case_length_lemma. Qed.
+Proof. exact change_case_length_gen. Qed.
 Print Assumptions change_case_length.
 
-Theorem change_case_idem : forall s mode out, balanced s -> change_case s mode = Ok out ->
+Theorem change_case_idem : forall s mode out, ends_in_special s = false -> change_case s mode = Ok out ->
   change_case out mode = Ok out.
-Proof. exact change_case_idem_lemma. Qed.
+Proof. exact change_case_idem_gen. Qed.
 Print Assumptions change_case_idem.
 
 (* the result is the concatenation of per-token images; a token inside braces (level > 0)
@@ -284,11 +294,11 @@ Example purify_example :
   bibtex_purify (s2l "{\noopsort{1973a}}A-b~c, {\'E}!") = Ok (s2l "1973aA b c E").
 Proof. vm_compute. reflexivity. Qed.
 Example change_case_example :
-  balanced (s2l "And {\Now: {BOOO}!!!}") /\
+  balanced (s2l "And {\Now: {BOOO}!!!}") /\ ends_in_special (s2l "a}b{\c}") = false /\
   change_case (s2l "And {\Now: {BOOO}!!!}") 0 = Ok (s2l "and {\Now: {booo}!!!}") /\
   change_case (s2l "And Now: BOOO!!!") 2 = Ok (s2l "And now: Booo!!!") /\
   change_case (s2l "The {\TeX book \noop}") 1 = Ok (s2l "THE {\TeX BOOK \noop}").
-Proof. vm_compute. auto. Qed.
+Proof. vm_compute. auto 6. Qed.
 Example change_case_unbalanced_example : change_case (s2l "{\") 0 = Ok (s2l "{\}").
 Proof. vm_compute. reflexivity. Qed.
 Example split_example :
